@@ -7,16 +7,6 @@ fn float_to_json(value: f32) -> Value {
     Value::Number(n)
 }
 
-pub fn story_to_json_string(
-    story: &ParsedStory,
-    count_all_visits: bool,
-) -> Result<String, CompilerError> {
-    let json = story_to_json_value(story, count_all_visits)?;
-    serde_json::to_string(&json).map_err(|error| {
-        CompilerError::invalid_source(format!("failed to serialize compiled ink: {error}"))
-    })
-}
-
 pub fn story_to_json_value(
     story: &ParsedStory,
     count_all_visits: bool,
